@@ -269,6 +269,39 @@ Proof.
     + intros key. rewrite Hcs, Hc. cbn [map concat]. rewrite map_app, app_assoc. reflexivity.
 Qed.
 
+(* a clean restart changes no partition's content *)
+Lemma flat_flush j : flat (flush j) = flat j.
+Proof.
+  unfold flat, flush. rewrite map_map. cbn [flush_chunk c_recs]. reflexivity.
+Qed.
+
+Lemma srv_get_restart srv key : srv_get (restart srv) key = flush (srv_get srv key).
+Proof.
+  induction srv as [|[k j] tl IH]; cbn [restart map srv_get fst snd]; [reflexivity|].
+  destruct (bytes_eqb k key); [reflexivity|exact IH].
+Qed.
+
+Lemma content_restart srv key : content (restart srv) key = content srv key.
+Proof. unfold content. rewrite srv_get_restart. apply flat_flush. Qed.
+
+(* histories with clean restarts: the same acknowledgements and the same content as the history without them *)
+Lemma run_segs_spec : forall segs fuel cfg srv, 0 < max_chunk cfg ->
+  Forall (Forall req_ok) segs -> Forall (Forall (fun r => (req_len r < fuel)%nat)) segs ->
+  exists srv' res, run_segs fparse norm fuel cfg srv segs = Ok (srv', res) /\
+    map r_ack res = map (spec_ack fparse norm cfg) (concat segs) /\
+    forall key, content srv' key = content srv key ++ map iw_rec (concat (map (spec_req fparse norm cfg key) (concat segs))).
+Proof.
+  induction segs as [|sg tl IH]; intros fuel cfg srv Hmax Hok Hf.
+  - exists srv, []. cbn. repeat split. intros key. rewrite app_nil_r. reflexivity.
+  - inversion Hok as [|? ? Hs Hok']; subst. inversion Hf as [|? ? Hfs Hf']; subst.
+    destruct (run_spec sg fuel cfg srv Hmax Hs Hfs) as (srv1 & res1 & Hrun & Ha & Hc).
+    destruct (IH fuel cfg (restart srv1) Hmax Hok' Hf') as (srv2 & res2 & Hrun2 & Ha2 & Hc2).
+    cbn [run_segs]. rewrite Hrun. cbn [obind]. rewrite Hrun2. cbn [obind].
+    exists srv2, (res1 ++ res2). split; [reflexivity|]. split.
+    + cbn [concat]. rewrite !map_app, Ha, Ha2. reflexivity.
+    + intros key. rewrite Hc2, content_restart, Hc. cbn [concat]. rewrite map_app, concat_app, map_app, app_assoc. reflexivity.
+Qed.
+
 (* every event the specification stores passed the size check of the write path *)
 Lemma spec_req_fits cfg key r : Forall (fun e => too_big (w_limit cfg) e = false) (spec_req fparse norm cfg key r).
 Proof.
@@ -322,6 +355,28 @@ Proof.
   unfold spec_content. apply read_back_spec; [|exact Hle|].
   - rewrite Hc. reflexivity.
   - pose proof (spec_content_fits fparse norm cfg key rs) as Hfit.
+    rewrite Forall_forall in *. intros e He. apply fits_readable; [exact Hlim|apply Hle; exact He|apply Hfit; exact He].
+Qed.
+
+Lemma read_back_restart as_kv cfg srv key : read_back as_kv cfg (restart srv) key = read_back as_kv cfg srv key.
+Proof. unfold read_back. rewrite srv_get_restart, flat_flush. reflexivity. Qed.
+
+(* C01_restart: a history with clean stops and starts between its segments (and one before the read) acknowledges
+   and reads back exactly what the same history without them does *)
+Theorem readback_restart fparse norm as_kv : total fparse -> total norm ->
+  forall cfg segs fuel key, 0 < max_chunk cfg -> 0 < w_limit cfg <= max_rec cfg ->
+  Forall (Forall req_ok) segs -> Forall (Forall (fun r => (req_len r < fuel)%nat)) segs ->
+  Forall le_ok (concat (map (spec_req fparse norm cfg key) (concat segs))) ->
+  exists srv res, run_segs fparse norm fuel cfg [] segs = Ok (srv, res) /\
+    map r_ack res = map (spec_ack fparse norm cfg) (concat segs) /\
+    read_back as_kv cfg (restart srv) key = Ok (spec_content fparse norm as_kv cfg key (concat segs)).
+Proof.
+  intros Hf Hn cfg segs fuel key Hmax Hlim Hok Hfuel Hle.
+  destruct (run_segs_spec fparse norm Hf Hn segs fuel cfg [] Hmax Hok Hfuel) as (srv & res & Hrun & Hack & Hc).
+  exists srv, res. split; [exact Hrun|]. split; [exact Hack|].
+  unfold spec_content. apply read_back_spec; [|exact Hle|].
+  - rewrite content_restart, Hc. reflexivity.
+  - pose proof (spec_content_fits fparse norm cfg key (concat segs)) as Hfit.
     rewrite Forall_forall in *. intros e He. apply fits_readable; [exact Hlim|apply Hle; exact He|apply Hfit; exact He].
 Qed.
 
